@@ -11,7 +11,7 @@ OUTSIDE = ["'accepted => emitted C compiles' for arbitrary programs (a string-bu
            "more than 23 flows; dependencies (0..12, symbolic direction) on the first two flows only, the other flows carry none"]
 ASSUMPTIONS = ["the AST shapes are those the grammar can produce: flow type in {CTL, READ, WRITE, RW}; every dependency is either input or output",
                "limits as configured in this build: MAX_PARAM_COUNT=20, MAX_DEP_IN_COUNT=MAX_DEP_OUT_COUNT=10"]
-BOUNDS = {"quick": {"flows": "0..23 symbolic", "deps per flow": "0..12 symbolic on 2 flows", "flow/dep kinds": "symbolic"},
+BOUNDS = {"quick": {"named locals": "0..23 symbolic", "local-definition slots": "0..4 symbolic", "flows": "0..23 symbolic", "deps per flow": "0..12 symbolic on 2 flows", "flow/dep kinds": "symbolic"},
           "thorough": {"flows": "0..23", "deps per flow": "0..12 on 2 flows"}}
 KF = "C24-total-flows"
 
